@@ -26,7 +26,7 @@ func init() {
 	fw.Register(&fw.Prop{
 		ID:     "C12",
 		Builds: []string{"default", "386"}, // the 386 build runs a quarter of the random classes on a 32-bit target
-		Rule: "lane (hook level): message lengths 8..65536 and targets t such that lx = len*t spans 8..2^64-1 including 3^k-1, 3^k, 3^k+1 and the 64-bit edge; s and T are obtained from the real sufficientTrailingZeros/targetHash exactly as Mine does (not asserted); 64-lane bit-plane states with lanes drawn from: random trits, exactly s-2, s-1, s, s+1, 243 trailing zeros, s-1 zeros with hash in {T-1, T, T+1}, hashes whose difficulty equals lx exactly / lx+1 / lx-1, all-zero and all-(-1) hashes, placed at lane 0, lane 63, several lanes, no lane. Oracle: a returned lane i < 64 must have difficulty floor(3^243/h_i) >= lx; a return of 64 means no lane has difficulty > lx. toint: toInt(trits) == 1 + sum d_i 3^i. score: Score(msg) == min(floor(d/len), 2^64-1) with d from the model hash. mine: Mine(1 worker, len*t from 8 up to 3^10 so that scans cover hundreds of 64-nonce blocks) must return a nonce with Score >= t and no nonce in the 64-blocks before the returned one's block may have difficulty > lx (every skipped nonce is re-hashed by a bit-sliced 64-lane model that is self-tested against the single-lane one); Mine(2..16 workers) soundness; t = 0 returns at once. shared: two demanding Mine calls (lx just below a power of three) and a looping easy one run concurrently on ONE *Worker; every returned nonce must meet its own target. " +
+		Rule: "lane (hook level): message lengths 8..65536 and targets t such that lx = len*t spans 8..2^64-1 including 3^k-1, 3^k, 3^k+1, the 64-bit edge and lx uniform in [3^40, 2^64) where 3^41 no longer fits 64 bits; s and T are obtained from the real sufficientTrailingZeros/targetHash exactly as Mine does (not asserted); 64-lane bit-plane states with lanes drawn from: random trits, exactly s-2, s-1, s, s+1, 243 trailing zeros, s-1 zeros with hash in {T-1, T, T+1}, hashes whose difficulty equals lx exactly / lx+1 / lx-1, all-zero and all-(-1) hashes, placed at lane 0, lane 63, several lanes, no lane. Oracle: a returned lane i < 64 must have difficulty floor(3^243/h_i) >= lx; a return of 64 means no lane has difficulty > lx. toint: toInt(trits) == 1 + sum d_i 3^i. score: Score(msg) == min(floor(d/len), 2^64-1) with d from the model hash. mine: Mine(1 worker, len*t from 8 up to 3^10 so that scans cover hundreds of 64-nonce blocks) must return a nonce with Score >= t and no nonce in the 64-blocks before the returned one's block may have difficulty > lx (every skipped nonce is re-hashed by a bit-sliced 64-lane model that is self-tested against the single-lane one); Mine(2..16 workers) soundness; t = 0 returns at once. shared: two demanding Mine calls (lx just below a power of three) and a looping easy one run concurrently on ONE *Worker; every returned nonce must meet its own target. " +
 			"Non-trivial: lane cases that reach the big-integer comparison (a lane with exactly s-1 zeros and none with s), mine cases whose scan covered at least one full block, all toint cases with a non-zero high chunk.",
 		Assumptions: []string{"BLAKE2b-256 (x/crypto), math/big", "the Curl-P-81 / b1t6 model in harness/oracle/curlp (self-tested)", "Score's big-integer fall-back (difficulty >= 2^64) needs a hash with >= 41 trailing zeros and is unreachable through Score; only toInt is checked on such vectors"},
 		SelfTest:    curlp.SelfTest,
@@ -50,6 +50,7 @@ func init() {
 		},
 		Required:      []string{"lane returned<64 sound", "lane returned 64 and nothing passed over", "lane reached big-int stage", "toint ok", "score ok", "mine ok", "reuse executions", "shared-worker executions", "mine blocks scanned", "lane: candidate with difficulty == lx"},
 		WatchdogQuick: 900,
+		StallClass:    map[string]int{"lane": 30, "toint": 30, "score": 30}, // pure arithmetic on one input: microseconds
 	})
 }
 
@@ -513,7 +514,12 @@ func judgeMine(data []byte, t uint64, workers int, o *fw.Obs) {
 	defer cancel()
 	var nonce uint64
 	var err error
-	if !o.Try("Mine", func() { nonce, err = powv2.New(workers).Mine(ctx, data, t) }) {
+	var sp fw.SpareSet
+	dataIn := sp.Of("data", data, 64) // a window into a larger buffer: a nonce appended to it would write into the caller's memory
+	if !o.Try("Mine", func() { nonce, err = powv2.New(workers).Mine(ctx, dataIn, t) }) {
+		return
+	}
+	if !sp.Check(o) {
 		return
 	}
 	if err != nil {
@@ -597,6 +603,10 @@ func gen(g *fw.Gen) {
 		case 5: // small
 			ln = 8 + g.Rng.Intn(200)
 			t = 1 + uint64(g.Rng.Intn(50))
+		case 6: // lx uniform in [3^40, 2^64): s = 41 and 3^41 does not fit 64 bits
+			ln = 8 + g.Rng.Intn(65529)
+			lx := pow3(40) + g.Rng.Uint64()%(math.MaxUint64-pow3(40))
+			t = lx / uint64(ln)
 		default:
 			ln = 8 + g.Rng.Intn(65529)
 			t = g.Rng.Uint64() >> uint(g.Rng.Intn(64))
